@@ -162,7 +162,10 @@ def rule_gate(run, F, cfg):
         run.touched(f)
         # every get_permissioned_resource call passes the function's own filter_permission
         gp = f.calls(r"ResourceStorage::get_permissioned_resource$")
-        okp = bool(gp) and all(f.expr_operand(t["args"][2]) == "arg:filter_permission" for b, t in gp)
+        # the rule's permission is the parameter of type PermissionMask (by position: 3 in get_scriptlet_resource,
+        # 4 in recursive_dependencies -- counted with self)
+        perm = f.local_name(3 if name.endswith("get_scriptlet_resource") else 4)
+        okp = bool(gp) and all(f.expr_operand(t["args"][2]) == perm for b, t in gp)
         run.ob("C18.2.gate-provenance", f"{name.split('::')[-1]}:passes-own-permission", okp,
                f"{name} calls get_permissioned_resource with its own `filter_permission` parameter",
                site=f.loc(gp[0][0]) if gp else f.loc(0), config=cfg)
@@ -170,7 +173,7 @@ def rule_gate(run, F, cfg):
         for b, t in f.calls(r"^std::vec::Vec::push$"):
             val = f.expr_operand(t["args"][1])
             n += 1
-            ok = bool(re.search(r"^resources::resource_storage::ResourceStorage::get_permissioned_resource\(arg:self, .*, arg:filter_permission\)@Continue\.0$", val))
+            ok = bool(re.search(r"^resources::resource_storage::ResourceStorage::get_permissioned_resource\(arg:self, .*, " + re.escape(perm) + r"\)@Continue\.0$", val))
             run.ob("C18.2.gate-provenance", f"{name.split('::')[-1]}:push#{n}", ok,
                    f"the resource pushed to the dependency list is a get_permissioned_resource(.., "
                    f"filter_permission) result (value `{val[:110]}`)", site=f.loc(b), config=cfg,
@@ -178,7 +181,7 @@ def rule_gate(run, F, cfg):
                           "the list's permissions")
         # recursion passes the same permission
         rc = f.calls(r"ResourceStorage::recursive_dependencies$")
-        okr = bool(rc) and all(f.expr_operand(t["args"][3]) == "arg:filter_permission" for b, t in rc)
+        okr = bool(rc) and all(f.expr_operand(t["args"][3]) == perm for b, t in rc)
         run.ob("C18.2.gate-provenance", f"{name.split('::')[-1]}:recursion-same-permission", okr,
                f"{name} passes `filter_permission` unchanged to recursive_dependencies", config=cfg)
         # no raw lookup here
@@ -192,8 +195,10 @@ def rule_gate(run, F, cfg):
     from analysis.guards import conditional_defs as _cd
     rd = F.fn(S + "recursive_dependencies")
     oks = [conds for kind, b, val, conds, _ in _cd(rd, 0) if "Result::Ok" in val]
-    ok = bool(oks) and all(has_cond(c, r"^discr\(resources::resource_storage::ResourceStorage::get_permissioned_resource\("
-                                       r"arg:self, arg:new_dep, arg:filter_permission\)\)$", 0) for c in oks)
+    pa = [re.escape(rd.local_name(i)) for i in (1, 2, 4)]      # self, the requested name, the rule's permission
+    gate_rx = (r"^discr\(resources::resource_storage::ResourceStorage::get_permissioned_resource\("
+               + pa[0] + ", " + pa[1] + ", " + pa[2] + r"\)\)$")
+    ok = bool(oks) and all(has_cond(c, gate_rx, 0) for c in oks)
     run.ob("C18.2.gate-provenance", "recursive_dependencies:ok-only-after-gate", ok,
            f"every `Ok(())` of recursive_dependencies ({len(oks)} sites) is reached only after "
            "get_permissioned_resource(new_dep, filter_permission) succeeded -- also when the dependency is "
@@ -224,7 +229,7 @@ def rule_gate(run, F, cfg):
            f"only the gated accessors call get_internal_resource ({callers})", config=cfg)
     gp = F.fn(S + "get_permissioned_resource")
     rets = [(b, t) for b, t in gp.calls(r"PermissionMask::is_injectable_by$")]
-    ok = len(rets) == 1 and gp.expr_operand(rets[0][1]["args"][1]) == "arg:filter_permission" \
+    ok = len(rets) == 1 and gp.expr_operand(rets[0][1]["args"][1]) == gp.local_name(3) \
         and "get_internal_resource" in gp.expr_operand(rets[0][1]["args"][0])
     run.ob("C18.2.gate-provenance", "gate-formula-operands", ok,
            "get_permissioned_resource tests resource.permission.is_injectable_by(filter_permission)",
